@@ -145,6 +145,12 @@ class Interp(HeapMixin, OpsMixin, StmtMixin, CallMixin):
                 r = ListRec(None, n, ty[1], None, sym=name)
                 if ty[1][0] in ("int", "real", "bool", "str", "enum", "any", "datetime", "timedelta"):
                     r.arr = z3.Array(name + "#arr", z3.IntSort(), self.sort_of(ty[1]))
+                if ty[1][0] == "obj" and self.contract is not None:
+                    for cn in self.contract.counters.get(ty[1][1], {}):
+                        c = z3.Int(f"{name}#count:{cn}")
+                        run.inputs[str(c)] = c
+                        run.assume(z3.And(c >= 0, c <= n))
+                        r.cnt[cn] = c
                 return r
             return self.sym_ref(name, "list", None, mk)
         if k == "dict":
